@@ -67,6 +67,19 @@ var encCfgs = []encCfg{
 		err := e.Encode(x)
 		return b.Bytes(), err
 	}},
+	{"Encoder(SetIndent(prefix only))", func(x any) ([]byte, error) {
+		var b bytes.Buffer
+		e := gojson.NewEncoder(&b)
+		e.SetIndent(">", "")
+		err := e.Encode(x)
+		return b.Bytes(), err
+	}, func(x any) ([]byte, error) {
+		var b bytes.Buffer
+		e := stdjson.NewEncoder(&b)
+		e.SetIndent(">", "")
+		err := e.Encode(x)
+		return b.Bytes(), err
+	}},
 	// the two colour interpreters, with a colour scheme that adds nothing to the text
 	{"MarshalWithOption(Colorize(empty))", func(x any) ([]byte, error) {
 		return gojson.MarshalWithOption(x, gojson.Colorize(&gojson.ColorScheme{}))
@@ -265,6 +278,14 @@ func encCompare(c *rt.Ctx, sub int, monitor string, cfg *encCfg, pname string, x
 		return
 	}
 	if oracle.Equal(rn, an) {
+		// same tokens: the white space between them (indent configurations) must be the same too
+		if !bytes.Equal(gb, sb) {
+			if gs, ss := layoutSkeleton(gb), layoutSkeleton(sb); gs != ss {
+				c.Violate(rt.Violation{Monitor: monitor, Entry: entry, Kind: "layout-differs", Ctx: featCtx(kindClass(t), feat),
+					Detail: "go-json " + rt.Q(gb) + " encoding/json " + rt.Q(sb) + " | type " + t.String(), Input: input, Sub: sub})
+				return
+			}
+		}
 		c.Obs("agree", 1)
 		return
 	}
@@ -275,6 +296,31 @@ func encCompare(c *rt.Ctx, sub int, monitor string, cfg *encCfg, pname string, x
 	}
 	c.Violate(rt.Violation{Monitor: monitor, Entry: entry, Kind: loc.kind, Ctx: featCtx(loc.ctx, feat),
 		Detail: "go-json " + rt.Q(gb) + " encoding/json " + rt.Q(sb) + " | type " + t.String(), Input: input, Sub: sub})
+}
+
+// layoutSkeleton keeps brackets, separators and white space; string contents and the characters of
+// numbers and literals are dropped (their spelling is the tokenizer's business).
+func layoutSkeleton(b []byte) string {
+	var sb strings.Builder
+	for i := 0; i < len(b); i++ {
+		switch c := b[i]; c {
+		case '"':
+			sb.WriteByte('"')
+			for i++; i < len(b) && b[i] != '"'; i++ {
+				if b[i] == '\\' {
+					i++
+				}
+			}
+			sb.WriteByte('"')
+		case '{', '}', '[', ']', ',', ':', ' ', '\n', '\t', '\r':
+			sb.WriteByte(c)
+		default:
+			if n := sb.Len(); n == 0 || sb.String()[n-1] != '#' {
+				sb.WriteByte('#')
+			}
+		}
+	}
+	return sb.String()
 }
 
 func errClass(err error) string {
